@@ -373,7 +373,7 @@ Section StepLoops.
   Hypothesis G_trans : forall s1 s2 s3, G s1 s2 -> G s2 s3 -> G s1 s3.
   Hypothesis G_step : forall s mi ev s' b, transition FUEL c tp s mi ev = Ok (s', b) -> G s s'.
   Hypothesis G_dec : forall s mi s', decrement_limit c tp s mi = Ok s' -> G s s'.
-  Hypothesis G_log : forall s e, G s (add_log s e).
+  Hypothesis G_log : forall s mi, G s (add_log s (LOG_SIGDELIVER, N.of_nat mi, 0)).
   Hypothesis G_sig : forall s, G s (set_sigp s None).
 
   Lemma trans_dec_G : forall s mi ev dec s', trans_dec c tp s mi ev dec = Ok s' -> G s s'.
@@ -440,7 +440,7 @@ Section CallLevel.
   Hypothesis G_trans : forall s1 s2 s3, G s1 s2 -> G s2 s3 -> G s1 s3.
   Hypothesis G_step : forall s mi ev s' b, transition FUEL c tp s mi ev = Ok (s', b) -> G s s'.
   Hypothesis G_dec : forall s mi s', decrement_limit c tp s mi = Ok s' -> G s s'.
-  Hypothesis G_log : forall s e, G s (add_log s e).
+  Hypothesis G_log : forall s mi, G s (add_log s (LOG_SIGDELIVER, N.of_nat mi, 0)).
   Hypothesis G_sig : forall s, G s (set_sigp s None).
   Hypothesis G_gnorm : forall s, G s (set_gnorm s (gnorm s + 1)).
   Hypothesis G_gpad : forall s, G s (set_gpad s (gpad s + 1)).
